@@ -24,6 +24,7 @@ from __future__ import annotations
 
 import copy
 import json
+import os
 import traceback
 from pathlib import Path
 
@@ -34,6 +35,13 @@ import vcore
 from vcore import Failure
 
 PROP = "C16"
+
+# The JSON text must be data for the library's own loader (utils.get_pyobj_from_json, which also accepts a
+# path): anything in the loader that treats the text as something else — shell-like expansion of `${name}` /
+# `$name` / `~`, path handling — would rewrite references.  Make such a rewrite visible: the names the
+# generators use for questions are defined as environment variables of this process (deterministic values).
+for _n in ["a", "b", "c", "t", "w", "v", "age", "city", "kids", "hh", "r", "r2", "grp", "rep"] + [f"q{i}" for i in range(0, 16)]:
+    os.environ.setdefault(_n, "ENV-" + _n.upper())
 RULE = (
     "generated forms (gen.FormGen decorated by c16_gen: bind/message/custom columns and appearances on groups "
     "and repeats, extra choice columns with and without choice filters, per-type parameters, 0–3 languages on "
@@ -121,6 +129,11 @@ def run_paths(form: dict) -> dict:
         x1 = to_xml(s1)
         if x1 != x0:
             P.append(("p1-xform", "XForm from the reloaded workbook JSON differs", c16_obs.diff_items(x0, x1)))
+        # the same text through the library's own loader (create_survey_element_from_json)
+        x1b = to_xml(create_survey_element_from_json(t0))
+        if x1b != x0 and x1b != x1:
+            P.append(("p1-xform", "XForm from the workbook JSON text loaded by create_survey_element_from_json differs",
+                      c16_obs.diff_items(x0, x1b)))
     except Exception as e:  # noqa: BLE001
         P.append(("p1-crash", f"{type(e).__name__}: {e} @ {site_of(e)}", None))
     # ---- path 2: a fresh survey from a copy of the same dict; dump BEFORE generating XML (F36)
